@@ -1,5 +1,6 @@
 import Rare.Model.C19
 import Rare.Base.F64Str
+import Rare.Model.C11Log
 /-!
 IEEE-754 binary64 instance of the C19 arithmetic, over the kernel-checkable software model
 `Rare.F64` (bit patterns, exact rationals, one rounding; `Rare/Base/F64.lean`).  This is the
@@ -24,9 +25,15 @@ Mirrors `pkg/expressions/stdmath/ops.go` operator by operator:
                              modelled `strconv.ParseFloat` (`F64.parseFloat`)
 * rendering of `{! …}`     → `strconv.FormatFloat(v, 'f', -1, 64)` (`F64.format v (-1)`)
 
-What stays a **parameter** (`Libm`): the functions Go computes with polynomial/asm kernels
-(`sin cos tan asin acos atan exp exp2 log log10 log2`) and `math.Pow` with a fractional exponent
-(`Exp(yf·Log(x))`).  `prim L` is the arithmetic for a given behaviour `L` of those; every theorem
+* `log log10 log2`         → `Rare.C11.Log.logAsm / log10 / log2` (round 4b): `math.Log` on amd64 is the
+                             straight-line SSE2 routine `log_amd64.s`, mirrored instruction by instruction
+                             (subnormal arguments are NOT normalised there: mirrored); `Log10`/`Log2` are
+                             pure Go on top of it.  `Props/C19.lean` `log_platform` ties GOARCH and probe
+                             values computed by the toolchain to these definitions.
+
+What stays a **parameter** (`Libm`): the functions whose instruction sequence is not fixed by the
+source (`sin cos tan asin acos atan exp exp2`; `math.Exp` on amd64 depends on the CPU's FMA support) and
+`math.Pow` with a fractional exponent (`Exp(yf·Log(x))`).  `prim L` is the arithmetic for a given behaviour `L` of those; every theorem
 holds for all `L`.  `primT` is the same arithmetic over `Option F64` where `none` = "went through
 `Libm`" (tainted); `Proofs/C19F64.lean` proves that an untainted answer of `primT` is the answer of
 `prim L` for every `L` (`taint_sound`), which is why the driver may evaluate with `primT`.
@@ -157,13 +164,19 @@ def powCore (x y : F64) : Option F64 :=
 
 /-! ### unary functions -/
 
-/-- The functions of `uniOps` that IEEE-754 determines. -/
+/-- The functions of `uniOps` the model computes: those IEEE-754 determines, and (round 4b) the three
+    logarithms, which on the platform of the check are fixed sequences of binary64 operations
+    (`math.Log` = `log_amd64.s`, mirrored instruction by instruction in `Model/C11Log.lean` – the model of
+    property C11's `{ln}`/`{log10}`/`{log2}`, shared here; `math.Log10`, `math.Log2` pure Go on top of it). -/
 def exactFn (name : Bytes) : Option (F64 → F64) :=
   if name = [97, 98, 115] then some F64.abs                          -- abs
   else if name = [115, 113, 114, 116] then some sqrt                 -- sqrt
   else if name = [102, 108, 111, 111, 114] then some F64.floor       -- floor
   else if name = [99, 101, 105, 108] then some F64.ceil              -- ceil
   else if name = [114, 111, 117, 110, 100] then some roundHalfAway   -- round
+  else if name = [108, 111, 103] then some Rare.C11.Log.logAsm       -- log
+  else if name = [108, 111, 103, 49, 48] then some Rare.C11.Log.log10   -- log10
+  else if name = [108, 111, 103, 50] then some Rare.C11.Log.log2     -- log2
   else none
 
 /-- `strconv.ParseFloat(s, 64)` on a literal token. -/
